@@ -45,7 +45,11 @@ def gen_cases(rnd, n):
                 if rnd.random() < 0.5:
                     q['where'] = qgen.gen_bool_expr(rnd, ncols, 1)
             elif shape == 'except':
-                q['except'] = sorted(set(rnd.randrange(ncols) for _ in range(rnd.randint(1, 2))))
+                q['except'] = sorted(set(rnd.randrange(ncols + 2) for _ in range(rnd.randint(1, 2))))
+                if rnd.random() < 0.3:      # the same column named twice (two spellings); columns beyond the record width
+                    q['except'].insert(rnd.randrange(len(q['except']) + 1), rnd.choice(q['except']))
+                if rnd.random() < 0.3:
+                    q['distinct'] = rnd.choice(['yes', 'count'])
                 B = None
                 q.pop('join', None)
             elif shape == 'agg':
